@@ -1,13 +1,17 @@
 //go:build verif
 
-// Contract for the size checks of the fflonk batch verifier of this curve (comment-only; installed by /verif/gcv
-// gen-contracts). The proof comes from the wire, so every size the verifier relies on must be one it checked: step 0
-// of BatchVerify is total on every proof and every list of point sets (each index it uses is below a length it has
-// compared: obligations), and it lets through only proofs with one non-empty pack of claimed values and one folded
-// opening per point set. The analysis stops where step 1 begins (+ stop): the folding relation and the embedded
-// shplonk verification are not under contract, and the vectors (slices of slices of slices) are not modelled beyond
-// "the same cell read twice holds the same value", which is why the sizes established in step 0 cannot be carried
-// into the loops of step 1 and 2.
+// Contract for the fflonk batch verifier of this curve (comment-only; installed by /verif/gcv gen-contracts). The
+// proof comes from the wire, so every size the verifier relies on must be one it checked: BatchVerify is total on
+// every proof and every list of point sets - each index it uses, in the size checks of step 0, in the folding of
+// step 1 (ClaimedValues[i][k][j], points[i][j], SOpeningProof.ClaimedValues[i][j*t+l]) and in step 2, is below a
+// length it has compared (obligations). Step 0 lets through only proofs in which every pack of claimed values is
+// non-empty, has one vector per polynomial of the same length as the point set, and whose folded opening has
+// |pack| x |set| values (quantified loop invariants); step 1 folds, for every pack, every point of its set (end-of-
+// iteration obligation: the inner loop ran up to the size of this pack's set, not of another one). The vectors are
+// slices of slices of slices: "option functional-nested-slices" reads their rows as functions of the row indices.
+// Precondition: no slice of the proof is longer than 2^31 (the codec's length prefixes are 32-bit; the product of
+// two sizes then does not wrap). What the folding relation says (eval, the roots of unity) and the embedded shplonk
+// verification are opaque calls.
 
 package fflonk
 
@@ -15,13 +19,25 @@ package fflonk
 //@ layer ring fr.Element
 //@ option opaque-calls
 //@ option nomerge
+//@ option functional-nested-slices
+//@ requires forall(p, 0, len(proof.ClaimedValues), len(proof.ClaimedValues[p]) <= 2147483648 && forall(q, 0, len(proof.ClaimedValues[p]), len(proof.ClaimedValues[p][q]) <= 2147483648))
+//@ ghost want = 0
 //@ loop 0
-//@ + invariant[packs] 0 <= i && i <= len(points) && len(proof.ClaimedValues) == len(points) && len(proof.SOpeningProof.ClaimedValues) == len(points)
+//@ + invariant[packs] 0 <= i && i <= len(points) && len(proof.ClaimedValues) == len(points) && len(proof.SOpeningProof.ClaimedValues) == len(points) && forall(p, 0, i, len(proof.ClaimedValues[p]) >= 1 && len(proof.ClaimedValues[p][0]) == len(points[p]) && len(proof.SOpeningProof.ClaimedValues[p]) == len(proof.ClaimedValues[p][0]) * len(proof.ClaimedValues[p])) && forall(p, 0, i, forall(q, 0, len(proof.ClaimedValues[p]), len(proof.ClaimedValues[p][q]) == len(proof.ClaimedValues[p][0])))
 //@ loop 1
-//@ + invariant[polynomials] 1 <= j
-//@ cut before call getIthRootOne #1
-//@ + invariant[sizes-checked] len(proof.ClaimedValues) == len(points) && len(proof.SOpeningProof.ClaimedValues) == len(points)
-//@ + stop
-//@ option never-returns
+//@ + invariant[polynomials] 1 <= j && j <= len(proof.ClaimedValues[i]) && forall(q, 0, j, len(proof.ClaimedValues[i][q]) == len(proof.ClaimedValues[i][0]))
+//@ loop 2
+//@ + ghost-post want = len(proof.ClaimedValues[i][0])
+//@ + invariant[sizes-checked] 0 <= i && i <= len(points) && len(proof.ClaimedValues) == len(points) && len(proof.SOpeningProof.ClaimedValues) == len(points) && forall(p, 0, len(points), len(proof.ClaimedValues[p]) >= 1 && len(proof.ClaimedValues[p][0]) == len(points[p]) && len(proof.SOpeningProof.ClaimedValues[p]) == len(proof.ClaimedValues[p][0]) * len(proof.ClaimedValues[p])) && forall(p, 0, len(points), forall(q, 0, len(proof.ClaimedValues[p]), len(proof.ClaimedValues[p][q]) == len(proof.ClaimedValues[p][0])))
+//@ + backedge[every-point-folded] j == want
+//@ loop 3
+//@ + invariant[points] 0 <= j && j <= len(proof.ClaimedValues[i][0]) && len(polyClaimedValues) == t && t == len(proof.ClaimedValues[i]) && t >= 1 && len(points[i]) == len(proof.ClaimedValues[i][0]) && len(proof.SOpeningProof.ClaimedValues[i]) == len(proof.ClaimedValues[i][0]) * t && forall(q, 0, t, len(proof.ClaimedValues[i][q]) == len(proof.ClaimedValues[i][0]))
+//@ loop 4
+//@ + invariant[polynomials] 0 <= k && k <= t
+//@ loop 5
+//@ + lemma mulmono(j+1, len(proof.ClaimedValues[i][0]), t)
+//@ + invariant[roots] 0 <= l && l <= t
+//@ loop 6
+//@ + invariant[sets] 0 <= i && i <= len(points)
 //@ modifies nothing
 //@ end
